@@ -221,6 +221,14 @@ class SyncedList(SyncedCollection, MutableSequence):
         self._load()
         return reversed(self._data)
 
+    def index(self, value, start=0, stop=None):  # noqa: D102
+        # The inherited implementation loads once per element, so a concurrent
+        # writer could make it miss a value that is in the list all the time.
+        self._load()
+        if stop is None:
+            return self._data.index(value, start)
+        return self._data.index(value, start, stop)
+
     def __iadd__(self, iterable):
         # Convert input to a list so that iterators work as well as iterables.
         iterable_data = list(iterable)
